@@ -88,6 +88,21 @@ CONTRACTS.append(Contract("ofxtools.header:OFXHeaderV2.__init__",
                           raises=[(OFXHeaderError, "version not in spec.header.V2_VERSIONS or ofxheader != 200 or (security is not None and security not in spec.header.SECURITY)", "must")],
                           props=["C12"]))
 
+# version / OFXHEADER given as text that is not a number (constructors are public; parse() hands them regex groups):
+# refused with the header's own error, like every other unusable header - not with a bare ValueError
+BADNUM = ["2.0", "one", "1e2", "10 2", "", " ", "0x66", "٢٠٣x", "102.0"]
+for cls_, good in ((OFXHeaderV1, 102), (OFXHeaderV2, 203)):
+    CONTRACTS.append(Contract(f"ofxtools.header:{cls_.__name__}.__init__",
+                              args=[OneOfArg("version", [b for b in BADNUM if b.strip()])],
+                              call=(lambda c: lambda it, fn, a: (c(*a) if it is None else it.call(c, list(a), {})))(cls_),
+                              raises=[(OFXHeaderError, "True", "must")],
+                              notes="VERSION that is not a number", props=["C12"], native_only=True, samples=40))
+    CONTRACTS.append(Contract(f"ofxtools.header:{cls_.__name__}.__init__",
+                              args=[Const("version", good), OneOfArg("ofxheader", [b for b in BADNUM if b.strip()])],
+                              call=(lambda c: lambda it, fn, a: (c(*a) if it is None else it.call(c, list(a), {})))(cls_),
+                              raises=[(OFXHeaderError, "True", "must")],
+                              notes="OFXHEADER that is not a number", props=["C12"], native_only=True, samples=40))
+
 # ------------------------------------------------------------------ __str__: exact text; parse(str(h)): equal fields
 S0 = len(CONTRACTS)
 
